@@ -390,7 +390,8 @@ def run_worker(ctx):
             try:
                 sync_case(ctx, svc, inj, data.draw, kinds)
             except Violation as v:
-                handle(v, None, None)
+                if handle(v, None, None):
+                    raise
             return
         desc = data.draw(bgen.states(max_providers=4))
         bgen.build_state(svc, desc, base)
